@@ -14,7 +14,7 @@ from mc.core import CACHE_DIR, VERIF, Ctx, HarnessError
 WHOLESALE_QUICK = ["C06", "C09", "C10", "C15", "C16", "C20"]
 WHOLESALE_THOROUGH = ["C05", "C11", "C14", "C02", "C08", "C07"]
 BODIES = ["pack_trees", "pack_objectives", "ttp", "extremes", "spaces",
-          "ann_shapes"]
+          "ann_shapes", "model_objective", "tsp_moves"]
 
 
 # --------------------------------------------------------------- child side
@@ -44,13 +44,22 @@ def body_pack_trees(tier, out):
             n = inst.n_items
             y = np.empty((n, 6), arr.dtype)
             fill = 55
-            b1, bs = _guarded(n, arr.dtype, fill=fill)
-            b2, be = _guarded(n, arr.dtype, fill=fill)
+            bufs = []
+
+            def wrap(a, bufs=bufs, fill=fill):
+                if a.ndim != 1:
+                    return a
+                b, v = _guarded(len(a), a.dtype, fill=fill)
+                v[:] = a
+                bufs.append((b, len(a)))
+                return v
+            a1, _, _ = C.kernel_args(1, inst, wrap)
+            a2, bs, be = C.kernel_args(2, inst, wrap)
             xbuf = np.zeros(n, arr.dtype)
             grid = np.zeros((n, W, H), np.int8)
             res = np.zeros(16, np.int64)
             try:
-                d["drive_tree"](arr, arr.astype(np.int64), W, H, xbuf, y,
+                d["drive_tree"](a1, a2, arr.astype(np.int64), W, H, xbuf, y,
                                 bs, be, grid, res, np.zeros(n, np.int64),
                                 np.zeros(n, np.int64), 1)
             except IndexError as e:
@@ -61,10 +70,9 @@ def body_pack_trees(tier, out):
                     "replay": {"body": "pack_trees", "W": W, "H": H,
                                "rows": rows}})
                 return
-            if not (_guard_ok(b1, n, fill=fill)
-                    and _guard_ok(b2, n, fill=fill)):
+            if not all(_guard_ok(b, ln, fill=fill) for b, ln in bufs):
                 out["violations"].append({
-                    "signature": "ibf2|write outside bin_starts/bin_ends",
+                    "signature": "ibf2|write outside the scratch arrays",
                     "text": f"bin {W}x{H} items={rows}: guard cells around "
                             "the scratch arrays were overwritten",
                     "replay": {"body": "pack_trees", "W": W, "H": H,
@@ -463,6 +471,121 @@ def body_ann_shapes(tier, out):
                 return
     out["cases"] = cases
     out["executions"] = cases
+
+
+def body_model_objective(tier, out):
+    """
+    The model-training objective kernel under every short history.
+
+    Its scratch array is sized by begin() from the data recorded so far;
+    all histories of real evaluations / begin / end / model evaluations to
+    depth 5 (see props/c11.py) are run under bounds checking.
+    """
+    from mc.core import pmap
+    from props import c11
+    hs = c11.mo_histories(5)
+    names = [c11.CONFIGS[0], c11.CONFIGS[3]]
+    for name in names:
+        c11.get_config(name)
+    jobs = [(name, ch) for name in names for ch in c11.chunks(hs, 3)]
+    outs = pmap(c11.mo_job, jobs, 6)
+    seen = set()
+    for o in outs:
+        out["cases"] += o["hist"]
+        out["executions"] += o["evals"]
+        for sig, text, h in o["viol"]:
+            if "IndexError" in sig and sig not in seen:
+                seen.add(sig)
+                out["violations"].append({
+                    "signature": "model_objective._evaluate|IndexError "
+                                 "under bounds checking",
+                    "text": f"{list(o['name'])} history {c11.hname(h)}: "
+                            f"{text}",
+                    "replay": {"body": "model_objective",
+                               "config": list(o["name"]),
+                               "history": [list(x) for x in h]}})
+
+
+def body_tsp_moves(tier, out):
+    """
+    The reversal kernels of the TSP EA / FEA on every index pair.
+
+    The kernels take "the first, smaller index" i and "the second, larger
+    index" j of the tour and read x[j + 1] with index wrap, so every
+    0 <= i < j <= n - 1 except the reversal of the whole tour (0, n - 1) is
+    an input they define; the tour is a view into a guard-padded buffer and
+    each call is made with two different guard fillings: a result that
+    depends on the filling has read outside the tour.
+    """
+    import itertools
+
+    from moptipyapps.tsp.ea1p1_revn import rev_if_not_worse
+    from moptipyapps.tsp.fea1p1_revn import rev_if_h_not_worse
+    from moptipyapps.tsp.instance import Instance as TI
+    done = 0
+    seen = set()
+    for n in (3, 4, 5, 6):
+        m = np.array([[0 if i == j else 1 + ((i * 7 + j * 3 + i * j) % 5)
+                       for j in range(n)] for i in range(n)])
+        m = m + m.T
+        ti = TI(f"t{n}", 0, m)
+        ub = int(ti.tour_length_upper_bound)
+        for p in itertools.permutations(range(n)):
+            if n == 6 and p[0] != 0:
+                continue
+            y = int(sum(m[p[k], p[(k + 1) % n]] for k in range(n)))
+            for i in range(n):
+                for j in range(i + 1, n):
+                    if i == 0 and j == n - 1:
+                        continue
+                    for algo in ("ea", "fea"):
+                        res = []
+                        err = None
+                        for fill in (0, n - 1):
+                            buf, x = _guarded(n, np.int64, 16, fill)
+                            x[:] = p
+                            try:
+                                if algo == "ea":
+                                    r = rev_if_not_worse(i, j, n, ti, x, y)
+                                else:
+                                    hb, h = _guarded(ub + 1, np.int64, 16,
+                                                     -77)
+                                    h[:] = 0
+                                    r = rev_if_h_not_worse(i, j, n, ti, h,
+                                                           x, y)
+                                    if not _guard_ok(hb, ub + 1):
+                                        err = "frequency table guard hit"
+                            except IndexError as e:
+                                err = f"IndexError: {e}"
+                            except TypeError:
+                                r = None   # another kernel interface
+                            if err:
+                                break
+                            if not _guard_ok(buf, n, 16, fill):
+                                err = "guard cells around the tour changed"
+                                break
+                            res.append((x.tolist(), repr(r)))
+                        done += 1
+                        if err is None and len(res) == 2 \
+                                and res[0] != res[1]:
+                            err = ("the result depends on the memory next "
+                                   f"to the tour: {res[0]} vs {res[1]}")
+                        if err:
+                            sig = (f"{algo} move kernel|"
+                                   + ("j=n-1" if j == n - 1 else "j<n-1")
+                                   + "|" + err.split(":")[0])
+                            if sig not in seen:
+                                seen.add(sig)
+                                out["violations"].append({
+                                    "signature": sig,
+                                    "text": f"n={n} matrix={m.tolist()} "
+                                            f"x={list(p)} i={i} j={j}: "
+                                            f"{err}",
+                                    "replay": {"body": "tsp_moves", "n": n,
+                                               "x": list(p), "i": i,
+                                               "j": j}})
+    out["cases"] = done
+    out["executions"] = 2 * done
 
 
 def child_main(argv):
